@@ -212,11 +212,13 @@ func (v *VerifC17) GCValidator() *validation.GlobalConfigurationValidator {
 }
 
 // Fill the listers.
-func (v *VerifC17) AddService(s *api_v1.Service) error           { return v.nsi.svcLister.Add(s) }
-func (v *VerifC17) AddSlice(s *discovery_v1.EndpointSlice) error { return v.nsi.endpointSliceLister.Add(s) }
-func (v *VerifC17) AddPod(p *api_v1.Pod) error                   { return v.pods.Add(p) }
-func (v *VerifC17) AddPolicy(p *conf_v1.Policy) error            { return v.nsi.policyLister.Add(p) }
-func (v *VerifC17) AddSecretObject(s *api_v1.Secret) error       { return v.nsi.secretLister.Add(s) }
+func (v *VerifC17) AddService(s *api_v1.Service) error { return v.nsi.svcLister.Add(s) }
+func (v *VerifC17) AddSlice(s *discovery_v1.EndpointSlice) error {
+	return v.nsi.endpointSliceLister.Add(s)
+}
+func (v *VerifC17) AddPod(p *api_v1.Pod) error             { return v.pods.Add(p) }
+func (v *VerifC17) AddPolicy(p *conf_v1.Policy) error      { return v.nsi.policyLister.Add(p) }
+func (v *VerifC17) AddSecretObject(s *api_v1.Secret) error { return v.nsi.secretLister.Add(s) }
 
 // ExtendAll = createExtendedResources(GetResources()) followed by the Configurator's
 // AddOrUpdate for every extended resource (real templates).  Returns how many were generated.
@@ -251,9 +253,11 @@ func (v *VerifC17) ExtendAll() (n int, genErrs int) {
 }
 
 // ProcessChanges / ProcessProblems are what every sync function runs after arbitration.
-func (v *VerifC17) ProcessChanges(ch []ResourceChange)         { v.lbc.processChanges(ch) }
-func (v *VerifC17) ProcessProblems(pr []ConfigurationProblem)  { v.lbc.processProblems(pr) }
-func (v *VerifC17) ProcessGCChanges(ch []ResourceChange) error { return v.lbc.processChangesFromGlobalConfiguration(ch) }
+func (v *VerifC17) ProcessChanges(ch []ResourceChange)        { v.lbc.processChanges(ch) }
+func (v *VerifC17) ProcessProblems(pr []ConfigurationProblem) { v.lbc.processProblems(pr) }
+func (v *VerifC17) ProcessGCChanges(ch []ResourceChange) error {
+	return v.lbc.processChangesFromGlobalConfiguration(ch)
+}
 
 // Sync puts the object into the lister its informer would have filled (or removes it when
 // del is set) and runs the worker's sync function for it: the real task-queue entry point.
